@@ -2145,6 +2145,19 @@ impl Stage for TableOps {
         out
     }
     fn check(&self, case: &Case) -> Outcome {
+        if std::env::var("VERIF_SUBRUN").as_deref() == Ok("parallel-cutoff0") {
+            // in which order the rows of one batch collide is only defined for the serial path: with the parallel
+            // implementations only order-independent merge functions have a defined result
+            if case.tables.iter().any(|t| matches!(t.merge, MergeKind::KeepOld | MergeKind::TakeNew)) {
+                let mut o = Outcome::new(crate::choice::fnv_str(&serde_json::to_string(case).unwrap_or_default()));
+                o.class("subrun-skipped(order-dependent merge function)");
+                return o;
+            }
+            // sub-run with EGGLOG_PARALLEL_*_CUTOFF=0: a 4-thread pool makes the parallel insert / delete / rehash /
+            // index-merge / rebuild implementations run on these small tables
+            let pool = egglog_concurrency::ThreadPool::new(4);
+            return pool.install(|| check_case(case));
+        }
         if case.pool {
             // with a pool installed tables get 2*threads hash shards; all sizes stay far below the
             // parallel cut-offs, so the algorithms are the serial ones (deterministic)
@@ -2340,7 +2353,7 @@ pub fn run(rep: &Report) {
     rep.assume("the merge function writes the incoming timestamp into a changed row and reports 'unchanged' otherwise (egglog-bridge's MergeFn::to_callback)");
     rep.assume("databases are cloned only when nothing is staged; rule sets are run right after they are built (header subsets are computed at build time)");
     rep.assume("rebuildable tables use order-independent merge functions (the order in which rebuilt rows collide is not documented)");
-    rep.assume("parallel code paths (>= 400 000 rows / egglog thread pool with large tables) are outside this check; incremental rebuild (> 10 000 rows) likewise");
+    rep.assume("the parallel implementations are exercised by a sub-run of the same stages with EGGLOG_PARALLEL_*_CUTOFF=0 and a 4-thread pool; incremental rebuild (> 10 000 rows) is outside this check (C01's large-table stage covers it at the language level)");
     if EXCLUDE_DISPLACED_CLEAR {
         rep.note("random stages never call clear_table on the DisplacedTable (known finding displaced-clear-stale-lookup); the golden case re-demonstrates it");
     }
@@ -2368,4 +2381,12 @@ pub fn run(rep: &Report) {
     let (n_long_general, n_long_churn) = rep.tier.pick((1500, 1000), (30_000, 20_000));
     rep.explore(&general, n_long_general, 2400);
     rep.explore(&churn, n_long_churn, 1600);
+    // the same stages once more in a sub-process whose parallel cut-offs are 0 (read once per process)
+    if std::env::var("VERIF_SUBRUN").is_err() {
+        let env: Vec<(String, String)> = ["DB_LEVEL_OP", "INDEX_CONSTRUCTION", "REBUILD", "INTRA_CONTAINER", "INTER_CONTAINER", "TABLE_OP"]
+            .iter()
+            .map(|n| (format!("EGGLOG_PARALLEL_{n}_CUTOFF"), "0".to_string()))
+            .collect();
+        rep.run_self_with_env("parallel-cutoff0", &env);
+    }
 }
